@@ -36,6 +36,8 @@ var (
 	sinkURL   string
 	sinkMu    sync.Mutex
 	sinkGot   []string
+	sinkSlow    time.Duration
+	sinkReenter func()
 	chfSupis  = map[string]bool{}
 )
 
@@ -55,7 +57,15 @@ func startSink() {
 		}
 		sinkMu.Lock()
 		sinkGot = append(sinkGot, hexOf([]byte(r.URL.Path))+":"+strings.Join(rgs, "+"))
+		slow, reenter := sinkSlow, sinkReenter
 		sinkMu.Unlock()
+		// a consumer that takes its time to answer, or that sends a request of its own before it answers
+		if strings.HasPrefix(r.URL.Path, "/n/slow/") && slow > 0 {
+			time.Sleep(slow)
+		}
+		if strings.HasPrefix(r.URL.Path, "/n/reenter/") && reenter != nil {
+			reenter()
+		}
 		w.WriteHeader(http.StatusNoContent)
 	})
 	go func() { _ = http.Serve(l, h2c.NewHandler(h, &http2.Server{})) }()
